@@ -952,6 +952,25 @@ fn exec(it: &mut Interp, t: &[&str]) -> Result<String, String> {
             Ok(format!("ok gcs={}", rt::gcs()))
         }
         "yieldhits" => Ok(format!("{}", vg::yield_hits())),
+        "constraints" => {
+            let c = mmtk.get_plan().constraints();
+            Ok(format!(
+                "constraints collects={} moves={} maxnonlos={} maxnonloscopy={} logbit={} barrier={:?} fwdafterliveness={} generational={} concurrent={} refoff={} hdrspecs={} vobit={} pinning={}",
+                c.collects_garbage as u8,
+                c.moves_objects as u8,
+                c.max_non_los_default_alloc_bytes,
+                c.max_non_los_copy_bytes,
+                c.needs_log_bit as u8,
+                c.barrier,
+                c.needs_forward_after_liveness as u8,
+                c.generational as u8,
+                c.needs_concurrent_workers as u8,
+                OBJECT_REF_OFFSET,
+                cfg!(feature = "hdr_specs") as u8,
+                cfg!(has_vo_bit) as u8,
+                cfg!(feature = "has_pinning") as u8
+            ))
+        }
         _ => Err("bad-op".into()),
     }
 }
